@@ -250,9 +250,9 @@ CLAIMS = {
              "blocker table with its primary key (negation witness without it); every pending step is attributed to "
              "exactly one root or is cyclic, and FILE + RESOURCE + failed + deferred + other + runnable + cyclic = total. The printed report of the real reporter is parsed "
              "and compared with the attribution (known finding summary-counts-overlap: the printed rows are exact transitive counts); more root causes than the report "
-             "ranks; whether a requested target is invalid is decided on the final database (known finding "
-             "invalid-target-not-failed:declaring-plan-skipped), the boot script as a target (fix f9126e4); a simulated director "
-             "that raises is a finding.",
+             "ranks; whether a requested target is invalid is decided on the final database (fix 78251e1: a target that ends the "
+             "phase as a static or volatile file sets FAILED; model Input.invalidTargets), the boot script as a target (fix "
+             "f9126e4); a simulated director that raises is a finding.",
         note=BASE_NOTE + "Base relations of the pending analysis (pend_file_block, dead-end files, unsatisfiable resources) "
              "and whether the cause shown is true of the graph are compared against a from-scratch Python reference on "
              "generated leftover graphs; serve()'s exit status is checked on simulated builds. 'DRAINED without FAILED' "
